@@ -297,12 +297,14 @@ func (env *ExecEnv) expandParam(fields []*field, pe *ast.ParamExp, mode ExpMode)
 				var n int
 				if pe.Name.Value == "@" {
 					n = len(a)
-				} else {
+				} else if len(a) != 0 {
 					n = utf8.RuneCountInString(a[0])
 				}
 				fields[len(fields)-1].join(strconv.Itoa(n), quote)
-			case !set && env.Opts&NoUnset != 0:
+			case env.Opts&NoUnset != 0:
 				goto Unset
+			default:
+				fields[len(fields)-1].join("0", quote)
 			}
 		}
 	default:
